@@ -114,7 +114,13 @@ class BadReduceError(Exception):
         raise RuntimeError("reduce of BadReduceError fails")
 
 
-LOCAL_CLASSES = ["LocalError", "BadStrError", "BadReprError", "BadReduceError"]
+# classes the receiver does not know although their module NAME is one it has special rules for: a project's own top-level
+# exceptions.py, an error class of a newer Pyro5 / sqlite3 than the receiver's
+ProjectQuotaError = type("ProjectQuotaError", (Exception,), {"__module__": "exceptions"})
+FutureVersionError = type("FutureVersionError", (Exception,), {"__module__": "Pyro5.errors"})
+FutureSqliteError = type("FutureSqliteError", (Exception,), {"__module__": "sqlite3"})
+
+LOCAL_CLASSES = ["LocalError", "BadStrError", "BadReprError", "BadReduceError", "ProjectQuotaError", "FutureVersionError", "FutureSqliteError"]
 
 
 def lookup_class(ns, name):
@@ -151,6 +157,8 @@ def _unserialisable(kind):
         return lambda: 1
     if kind == "object":
         return object()
+    if kind == "surrogate":
+        return "report-\udcff.csv"       # text with a lone surrogate (what os.fsdecode gives for an undecodable file name): not utf-8 encodable
     if kind == "slots-unset":
         return _SlotsUnset()        # serialising it fails with AttributeError (slot never assigned), not TypeError/ValueError
     raise KeyError(kind)
@@ -189,6 +197,8 @@ def build_exception(spec):
         o = _unserialisable(sp["unser"])
         if sp.get("where") == "arg":
             x.args = x.args + (o,)
+        elif sp.get("where") == "message":
+            x.args = ("cannot open " + o,)         # the offending text IS the message (sole argument)
         else:
             x.x_bad = o
     return x
@@ -635,6 +645,9 @@ def run_live_case(case):
         exp_msg = str(local)
     except Exception:
         exp_msg = None            # __str__ raises: nobody can see the message
+    if (spec.get("special") or {}).get("where") == "message":
+        # (the part of the text up to the character that cannot be encoded: how that one is escaped is the daemon's choice)
+        exp_msg = (exp_msg or "").split("\udcff")[0]
     if (spec.get("special") or {}).get("where") == "arg":
         exp_msg = str(spec["args"][0])     # str() of the whole args tuple contains the address of the foreign object
 
@@ -1073,6 +1086,9 @@ def case_strategy(draw, servertype, ser):
     if unser < 4 and spec["special"] is None:
         # the "cannot be serialised" family on a random class: offending value as attribute
         spec["special"] = {"unser": ["socket", "lambda", "object", "slots-unset"][unser], "where": "attr"}
+    elif unser == 4 and spec["special"] is None and spec["ns"] != "local":
+        # text that json / msgpack cannot encode (serpent and marshal can): as the message itself, as a further argument, as an attribute
+        spec["special"] = {"unser": "surrogate", "where": draw(st.sampled_from(["message", "message", "arg", "attr"] if spec["args"] else ["message", "attr"]))}
     case = {"level": "live", "servertype": servertype, "ser": ser, "kind": kind,
             "k": k if kind in ("batch-middle", "batch-last", "stream") else 0, "spec": spec}
     if detailed:
